@@ -226,50 +226,69 @@ package graphsync
 // channel operations: locks held, lock effects (C20); closing never hangs (C09)
 
 //@ func (*graphsync.dtChannel).cancel {C09,C20}
+//@   requires ctx != nil
+//@   modifies c.requestID
+//@   guarantee [forgets-request] (self.requestID == nil || self.requestID == old(self.requestID)) && self.requesterCancelled == old(self.requesterCancelled) &&
+//@       self.isOpen == old(self.isOpen)
 //@   locked c.lk -- "must be called under the lock"
 //@ func (*graphsync.dtChannel).open {C20}
+//@   requires ctx != nil
+//@   modifies c.completed, c.isOpen, c.requestID
 //@   acquires {C20} graphsync.dtChannel.lk
 //@   cancellable ctx
 //@ func (*graphsync.dtChannel).close {C09,C20}
+//@   requires ctx != nil
+//@   modifies c.requestID
 //@   acquires {C20} graphsync.dtChannel.lk
 //@   cancellable ctx
 //@ func (*graphsync.dtChannel).shutdown {C20}
+//@   requires ctx != nil
+//@   modifies c.requestID
 //@   acquires {C20} graphsync.dtChannel.lk
 //@   cancellable ctx
 //@ func (*graphsync.dtChannel).pause {C20}
 //@   acquires {C20} graphsync.dtChannel.lk
 //@ func (*graphsync.dtChannel).resume {C20}
+//@   modifies c.pendingExtensions, c.xferStarted
 //@   acquires {C20} graphsync.dtChannel.lk
 //@ func (*graphsync.dtChannel).gsReqOpened {C16,C20}
 //@   acquires {C20} graphsync.dtChannel.optionsLk, graphsync.requestIDToChannelIDMap.lk
 //@   requires hookActions != nil
 //@ func (*graphsync.dtChannel).gsDataRequestRcvd {C16,C20}
+//@   modifies c.isOpen, c.pendingExtensions, c.requestID, c.requesterCancelled
 //@   acquires {C20} graphsync.dtChannel.optionsLk, graphsync.requestIDToChannelIDMap.lk
 //@   locked c.lk -- "must be called under the lock"
 //@   requires hookActions != nil
 //@   loop 0 invariant [pending] $i >= 0
 //@ func (*graphsync.dtChannel).setMaxLinks {C20}
+//@   modifies c.maxLinksOption
 //@   acquires {C20} graphsync.dtChannel.optionsLk
 //@ func (*graphsync.requestIDToChannelIDMap).any {C20}
 //@   acquires {C20} graphsync.requestIDToChannelIDMap.lk
 //@   loop 0 invariant [scan] $i >= 0
 //@ func (*graphsync.Transport).gsReqRecdHook {C16,C20}
+//@   after GetTransferData [decoders-are-FromIPLD] $r1 == nil && $r0 != nil ==> ($r0.IsRequest() ? implements($r0, datatransfer.Request) : implements($r0, datatransfer.Response))
+//@   modifies ret(Transport.trackDTChannel, 0).xferStarted, ret(Transport.trackDTChannel, 0).isOpen, ret(Transport.trackDTChannel, 0).pendingExtensions,
+//@       ret(Transport.trackDTChannel, 0).requestID, ret(Transport.trackDTChannel, 0).requesterCancelled
 //@   acquires {C20} channels.progressCache.lk, graphsync.Transport.dtChannelsLk, graphsync.dtChannel.lk, graphsync.dtChannel.optionsLk, graphsync.requestIDToChannelIDMap.lk, registry.Registry.registryLk, transportoptions.TransportOptions.optionsLk
 //@   requires request != nil && hookActions != nil && t.events != nil
 //@   loop 0 invariant [extensions] $i >= 0
 //@ func (*graphsync.Transport).OpenChannel {C16,C20}
+//@   requires ctx != nil -- API precondition (Go convention): contexts are never nil
 //@   acquires {C20} graphsync.Transport.dtChannelsLk, graphsync.dtChannel.lk
 //@ func (*graphsync.Transport).PauseChannel {C20}
 //@   acquires {C20} graphsync.Transport.dtChannelsLk, graphsync.dtChannel.lk
 //@ func (*graphsync.Transport).ResumeChannel {C20}
 //@   acquires {C20} graphsync.Transport.dtChannelsLk, graphsync.dtChannel.lk
 //@ func (*graphsync.Transport).CloseChannel {C09,C20}
+//@   requires ctx != nil
 //@   acquires {C20} graphsync.Transport.dtChannelsLk, graphsync.dtChannel.lk
 //@ func (*graphsync.Transport).UseStore {C20}
 //@   acquires {C20} graphsync.Transport.dtChannelsLk, graphsync.dtChannel.optionsLk
 //@ func (*graphsync.Transport).MaxLinks {C20}
 //@   acquires {C20} graphsync.Transport.dtChannelsLk, graphsync.dtChannel.optionsLk
 //@ func (*graphsync.Transport).Shutdown {C20}
+//@   requires ctx != nil
 //@   acquires {C20} graphsync.Transport.dtChannelsLk, graphsync.dtChannel.lk
 //@   loop 0 invariant [unregister] $i >= 0
 //@   loop 1 invariant [snapshot] true
@@ -277,6 +296,8 @@ package graphsync
 //@ func (*graphsync.Transport).ChannelsForPeer {C20}
 //@   acquires {C20} graphsync.Transport.dtChannelsLk, graphsync.requestIDToChannelIDMap.lk
 //@ func (*graphsync.Transport).ChannelsForPeer$1 {C20}
+//@   requires *t != nil && *sending != nil && *receiving != nil
+//@   modifies *sending, *receiving
 //@   rlocked (*t).dtChannelsLk
 //@ func graphsync.UseStore$1 {C20}
 //@   acquires {C20} graphsync.Transport.dtChannelsLk, graphsync.dtChannel.optionsLk
@@ -285,5 +306,6 @@ package graphsync
 //@   acquires {C20} graphsync.Transport.dtChannelsLk, graphsync.dtChannel.optionsLk
 //@   refines dyn.TransportOption
 //@ func (*graphsync.Transport).Shutdown$1 {C20}
+//@   requires *ctx != nil
 //@   acquires {C20} graphsync.dtChannel.lk
 //@   requires *ch != nil
